@@ -66,10 +66,16 @@ Proof. vm_compute. reflexivity. Qed.
 
 (* =====================================================================================================
    Further kernels (Model/KernelsPyCy2.v, Model/KernelsPyCy3.v), hand transcriptions of the two sources.
-   Tie to the code: init_from_legs_py/_cy and sliced_copy_py/_cy are evaluated by harness/c04.py against their own
-   configuration (Model/KernelsPyCy2Check.v: check2_py / check2_cy on the 'pipe' and 'sliced_copy' kernel cases);
-   the merge (d) and itranspose (c) models are NOT executed against the code (those kernels are compared
-   differentially only).  (b) reuses the correspondence-checked make_valid / _find_row_differences models. *)
+   Tie to the code: every model of this group is evaluated by harness/c04.py against its own configuration on
+   every run: init_from_legs_py/_cy and sliced_copy_py/_cy by Model/KernelsPyCy2Check.v (check2_py / check2_cy on
+   the 'pipe' and 'sliced_copy' kernel cases); iadd_merge_py/_cy and itranspose_py/_cy by
+   Model/KernelsPyCy3Check.v (check3_py / check3_cy): 'merge' cases record the _qdata tables of both operands as
+   the loop of iadd_prefactor_other sees them (lexsorted by isort_qdata, or -- a quarter of the cases -- unsorted
+   with the sorted flag forced), the resulting _qdata and, through marker values in the blocks, which operand(s)
+   contributed each output row; 'itrans' cases record legs (identities), labels, _qdata, every block (buffer,
+   shape, element strides) and the sorted flag before and after Array.itranspose (or the ValueError), incl. Arrays
+   with a duplicated label, where the two models predict different behaviour.  (b) reuses the
+   correspondence-checked make_valid / _find_row_differences models. *)
 
 (* ---- (d) block merge of iadd_prefactor_other: py Array.ibinary_blockwise (append to lists) vs cy
    Array_iadd_prefactor_other (rows written into a preallocated (Na+Nb, rank) table, truncated at the end);
